@@ -23,8 +23,10 @@ def arm() -> None:
     """(Re)arm the interval timer: every observation of the code under test gets its own budget,
     so one hang inside an operation cannot leave the following observation unguarded."""
     import signal
+    import threading
 
-    signal.setitimer(signal.ITIMER_REAL, LIMIT[0])
+    if threading.current_thread() is threading.main_thread():
+        signal.setitimer(signal.ITIMER_REAL, LIMIT[0])
 
 
 _cache: dict = {}
@@ -903,3 +905,131 @@ def op_c12(case):
         x.pop("rows", None)
         x.pop("dump", None)
     return r
+
+
+# ---------------------------------------------------------------------------------------------
+# C13: histories and schedules in one process
+# ---------------------------------------------------------------------------------------------
+def _call_outcome(call: dict, keep=None):
+    """perform one call description; returns an outcome digest (int)"""
+    kind, src = call["kind"], call["src"]
+    kw = {}
+    if call.get("py_version"):
+        kw["py_version"] = tuple(call["py_version"])
+    if call.get("verbose"):
+        kw["verbose"] = True
+    arm()
+    try:
+        if kind == "string":
+            tree = P().parse_string(src, mode=call.get("mode", "exec"), **kw)
+        elif kind == "file":
+            import pathlib
+
+            p = pathlib.Path(_tmpdir()) / call.get("name", "same.py")
+            p.write_bytes(src.encode("utf-8"))
+            tree = P().parse_file(p, **kw)
+        elif kind == "tokens":
+            return _h(tok_rows(list(T().generate_tokens(src))))
+        else:
+            raise ValueError(kind)
+    except HangTimeout:
+        return -1
+    except BaseException as e:  # noqa: BLE001
+        r = exc_record(e)
+        return _h(("exc", r["cls"], r["msg"], r.get("lineno"), r.get("offset"), r.get("end_lineno"), r.get("end_offset"), r.get("text")))
+    if keep is not None and isinstance(tree, ast.AST):
+        keep.append(tree)
+    return _h(("tree", ast.dump(tree, include_attributes=True))) if isinstance(tree, ast.AST) else _h(("none",))
+
+
+def op_c13_fresh(case):
+    """outcome of every pool call, each meant to run in a fresh interpreter (the pool spawns one worker per batch of 1)"""
+    return {"want": _call_outcome(case["call"])}
+
+
+def op_c13_history(case):
+    """a batch of histories replayed back to back in this process"""
+    pool, out = case["pool"], []
+    for hist in case["histories"]:
+        keep, steps = [], []
+        at_return = []
+        for c in hist:
+            n = len(keep)
+            got = _call_outcome(pool[c - 1], keep)
+            steps.append([c, got])
+            if len(keep) > n:
+                at_return.append(_h(ast.dump(keep[-1], include_attributes=True)))
+        at_end = [_h(ast.dump(t, include_attributes=True)) for t in keep]
+        out.append({"steps": steps, "kept": [[a, b] for a, b in zip(at_return, at_end)]})
+    return {"results": out}
+
+
+def op_c13_schedule(case):
+    """two parses in two threads, interleaved at token-pull granularity in the order given by each schedule"""
+    import threading
+
+    res = []
+    a, b = case["a"], case["b"]
+    for sched in case["schedules"]:
+        turn = {"order": list(sched), "i": 0}
+        cv = threading.Condition()
+        outs = {}
+
+        def gated(src, me):
+            gen = T().generate_tokens(src)
+            while True:
+                with cv:
+                    # wait for my turn; when the schedule is exhausted everybody runs free
+                    cv.wait_for(lambda: turn["i"] >= len(turn["order"]) or turn["order"][turn["i"]] == me, timeout=5)
+                try:
+                    tok = next(gen)
+                except StopIteration:
+                    with cv:
+                        turn["order"] = [x for j, x in enumerate(turn["order"]) if j < turn["i"] or x != me]
+                        cv.notify_all()
+                    return
+                except BaseException:
+                    with cv:
+                        turn["order"] = [x for j, x in enumerate(turn["order"]) if j < turn["i"] or x != me]
+                        cv.notify_all()
+                    raise
+                with cv:
+                    if turn["i"] < len(turn["order"]) and turn["order"][turn["i"]] == me:
+                        turn["i"] += 1
+                    cv.notify_all()
+                yield tok
+
+        def run(src, me):
+            from peg_parser.tokenizer import Tokenizer
+
+            try:
+                tree = P()(Tokenizer(gated(src, me))).parse("file")
+                outs[me] = _h(("tree", ast.dump(tree, include_attributes=True))) if isinstance(tree, ast.AST) else _h(("none",))
+            except BaseException as e:  # noqa: BLE001
+                r = exc_record(e)
+                outs[me] = _h(("exc", r["cls"], r["msg"], r.get("lineno"), r.get("offset"), r.get("end_lineno"), r.get("end_offset"), r.get("text")))
+            finally:
+                with cv:
+                    turn["order"] = [x for j, x in enumerate(turn["order"]) if j < turn["i"] or x != me]
+                    cv.notify_all()
+
+        signal_safe = [threading.Thread(target=run, args=(a, 1)), threading.Thread(target=run, args=(b, 2))]
+        for t in signal_safe:
+            t.start()
+        for t in signal_safe:
+            t.join(30)
+        res.append([outs.get(1, -1), outs.get(2, -1)])
+    return {"results": res}
+
+
+def op_c13_threads(case):
+    """free-running thread pool with a tiny switch interval"""
+    import concurrent.futures as cf
+
+    sys.setswitchinterval(1e-6)
+    pool = case["pool"]
+    order = case["order"]
+    with cf.ThreadPoolExecutor(max_workers=case.get("threads", 8)) as ex:
+        got = list(ex.map(lambda c: _call_outcome(pool[c - 1]), order))
+    sys.setswitchinterval(0.005)
+    return {"got": got}
